@@ -233,6 +233,25 @@ func (cl *cluster) apply(ev string) {
 		})
 		cl.failSig = false
 		cl.observe("%s -> %v", ev, err != nil)
+	case "RegL":
+		// a registration during which ONE liveness probe of the current leader gets lost (the leader is alive)
+		i := atoi(f[1])
+		if l := nodeOf("tcp://" + before.MaxRevReplica + ":9502"); l >= 0 {
+			cl.lostProbes[l] = 1
+		}
+		cl.nRegs++
+		cl.nFaults++
+		nv := cl.nodes[i].View()
+		cl.regTruth[i] = nv.Rev
+		st := "closed"
+		if i < len(cl.cfg.States) && cl.cfg.States[i] != "" {
+			st = cl.cfg.States[i]
+		}
+		err := cl.guard(ev, func() error {
+			return c.RegisterReplica(types.RegReplica{Address: ip(i), UUID: fmt.Sprintf("uuid-%d", i), RevCount: nv.Rev, RepType: "Backend", RepState: st})
+		})
+		cl.lostProbes = map[int]int{}
+		cl.observe("%s -> %v", ev, err != nil)
 	case "Down":
 		cl.down[atoi(f[1])] = true
 	case "Up":
